@@ -254,7 +254,16 @@ def offset_provenance(ct: Container, rep, rule="offset-provenance"):
         after_shift = cfg.dominates(shift_loop, cn)
         after_remove = cfg.dominates(rm.node, cn)
         before_append = not cfg.dominates(ap.node, cn)
-        p = to_poly(ff.resolve(expr), ct.ctx)
+        # aliases of table elements (`last = self.entries[-1]`): substitute when bound after the removal
+        alias_env = {}
+        for nm in {x.id for x in ast.walk(expr) if isinstance(x, ast.Name)}:
+            info = ff.entry_names.get(nm)
+            d = ff.defs.get(nm, [])
+            if info and info[0] == "elem" and info[1] == "subscript" and len(d) == 1:
+                dn = cfg.node_of(d[0][1])
+                if dn is not None and cfg.dominates(rm.node, dn) and not cfg.dominates(ap.node, dn):
+                    alias_env[nm] = d[0][0]
+        p = to_poly(ff.resolve(subst(expr, alias_env) if alias_env else expr), ct.ctx)
         atoms = p.atoms() if p is not None else set()
         last = f"self.{ct.entries_attr}[-1]"
         L_off, L_size, R_size = f"{last}.offset", f"{last}.size", f"{removed}.size"
@@ -275,7 +284,12 @@ def offset_provenance(ct: Container, rep, rule="offset-provenance"):
         else:
             # geometry only: table end; correct only when nothing (live) remains
             implies_empty = any(g.replace(" ", "") in (f"notself.{ct.entries_attr}", f"len(self.{ct.entries_attr})==0", f"notlen(self.{ct.entries_attr})") for g in guard) and after_remove
-            if implies_empty:
+            k = ct.slot_index(expr, ff)
+            table_end = k is not None and k == Poly.atom("self.nEntries")
+            if implies_empty and not table_end:
+                rep.fail(rule, MOD(ct), fq, stmt, f"free-slot offset {desc} is not the end of the table ({ct.HDR} + {ct.ENT}*self.nEntries): with no entry left the next block would be placed inside the table",
+                         construct=f"{norm(head(stmt))} :: {norm(expr)}")
+            elif implies_empty:
                 rep.ok(rule, f"{fq}: free-slot offset {desc} (table end) only when no entry remains", nontrivial=True)
             else:
                 rep.fail(rule, MOD(ct), fq, stmt, f"free-slot offset {desc} is the end of the table, which is end of data only when no live block remains; the guard does not imply that",
